@@ -831,3 +831,34 @@ Example specialize_example_topology :
   specialize true 48 [RL 5 0; RL 7 0; RL 0 0; RM 1 1; RM 2 2]
   = [(HLINETO, [5]); (HLINETO, [7]); (HLINETO, [0]); (RMOVETO, [3; 3])].
 Proof. vm_compute. reflexivity. Qed.
+
+(* ---------- generalizeFirst=True: any list of path commands *)
+Lemma generalize_all_sound : forall cs g, generalize_all cs = Ok g -> interp_all g = interp_all cs.
+Proof.
+  induction cs as [|[o a] r IH]; intros g H; cbn [generalize_all] in H.
+  - apply Ok_inj in H. subst. reflexivity.
+  - destruct (generalize o a) as [x|e] eqn:Ex; [|discriminate]. cbn [bind] in H.
+    destruct (generalize_all r) as [y|e] eqn:Ey; [|discriminate]. cbn [bind] in H. apply Ok_inj in H. subst g.
+    rewrite interp_all_app. rewrite (generalize_preserves_all o a x Ex). rewrite (IH y eq_refl).
+    cbn [interp_all]. destruct (interp o a); cbn [bind]; [|reflexivity]. destruct (interp_all r); reflexivity.
+Qed.
+
+Theorem specialize_commands_keep_topology ms cs outc :
+  specialize_commands true ms cs = Ok outc ->
+  exists D, interp_all cs = Ok D /\ interp_all outc = Ok (p1 D).
+Proof.
+  unfold specialize_commands. intros H.
+  destruct (generalize_all cs) as [g|e] eqn:Eg; [|discriminate]. cbn [bind] in H.
+  destruct (interp_all g) as [segs|e] eqn:Es; [|discriminate]. cbn [bind] in H. apply Ok_inj in H. subst outc.
+  exists segs. split; [rewrite <- (generalize_all_sound cs g Eg); exact Es|apply specialize_keeps_topology].
+Qed.
+Theorem specialize_commands_keep_fill ms cs outc :
+  specialize_commands false ms cs = Ok outc ->
+  exists D out, interp_all cs = Ok D /\ interp_all outc = Ok out /\ fill_eq out D.
+Proof.
+  unfold specialize_commands. intros H.
+  destruct (generalize_all cs) as [g|e] eqn:Eg; [|discriminate]. cbn [bind] in H.
+  destruct (interp_all g) as [segs|e] eqn:Es; [|discriminate]. cbn [bind] in H. apply Ok_inj in H. subst outc.
+  destruct (specialize_keeps_fill ms segs) as [out [H1 H2]].
+  exists segs, out. split; [rewrite <- (generalize_all_sound cs g Eg); exact Es|]. split; assumption.
+Qed.
